@@ -796,7 +796,7 @@ func (w *world) checkCanary(why string) {
 		} else if closed {
 			w.bad.Store(true)
 			w.run.Violation("canary-connection-closed", fmt.Sprintf("a connection that sent nothing but pings (joined as op in its own group) was closed by the server (%v) while other clients were misbehaving", err),
-				map[string]any{"tier": "ws", "batch": w.batch, "when": why})
+				map[string]any{"tier": "ws", "batch": w.batch, "pass": w.pass, "when": why})
 		} else {
 			w.bad.Store(true)
 			w.run.Inconclusive("canary ping watchdog fired (" + why + ")")
@@ -820,7 +820,7 @@ func (w *world) checkCanary(why string) {
 			break
 		}
 		if ok {
-			w.run.Violation("fresh-join-refused", fmt.Sprintf("a fresh client with valid credentials was refused by an untouched group (reply %v)", m), map[string]any{"tier": "ws", "batch": w.batch, "when": why})
+			w.run.Violation("fresh-join-refused", fmt.Sprintf("a fresh client with valid credentials was refused by an untouched group (reply %v)", m), map[string]any{"tier": "ws", "batch": w.batch, "pass": w.pass, "when": why})
 			return
 		}
 		_, cerr := c.Closed()
@@ -831,7 +831,7 @@ func (w *world) checkCanary(why string) {
 			w.bad.Store(true)
 			w.run.Inconclusive("fresh connections kept failing while the process was starved (" + why + "): " + last)
 		} else {
-			w.run.Violation("fresh-connection-refused", "four fresh websocket connections in a row could not handshake and join an untouched group: "+last, map[string]any{"tier": "ws", "batch": w.batch, "when": why})
+			w.run.Violation("fresh-connection-refused", "four fresh websocket connections in a row could not handshake and join an untouched group: "+last, map[string]any{"tier": "ws", "batch": w.batch, "pass": w.pass, "when": why})
 		}
 		return
 	}
